@@ -283,14 +283,20 @@ Section Model.
           end
       end.
 
+  Fixpoint first_word (t : text) : text :=
+    match t with [] => [] | c :: t' => if is_sp c || is_nl c then [] else c :: first_word t' end.
+
   (* steps 4 (hyphens: manual) and 5 (break inside the word) *)
   Definition steps45 (st : style) (mw : Q) (pwm : option Q) (is_line_start minimum : bool)
-             (t flt slt : text) (Lay : layout) (fl : Z * Q) (ri : option Z) : outcome :=
+             (t flt slt : text) (only_spaces_overflow : bool) (Lay : layout) (fl : Z * Q) (ri : option Z) : outcome :=
     let collapse := space_collapse (st_ws st) in
-    (* step 4, hyphens: manual *)
-    let manual := st_hyph_manual st && has_ch is_shy (flt ++ slt) in
-    let '(flt, slt) := if manual && ends_with is_shy flt then ([], flt) else (flt, slt) in
-    let idx := if manual then rev (shy_indexes slt O) else [] in
+    (* step 4, hyphens: manual (none when the whole text fits without its trailing spaces) *)
+    let manual := st_hyph_manual st && negb only_spaces_overflow && has_ch is_shy (flt ++ slt) in
+    let swapped := manual && ends_with is_shy flt in
+    let '(flt, slt) := if swapped then ([], flt) else (flt, slt) in
+    (* only the soft hyphens of the first word of the second line: re.split('[ \t\n]', second_line_text)[0] *)
+    let next_word := if swapped then slt else first_word slt in
+    let idx := if manual then rev (shy_indexes next_word O) else [] in
     let s4 : layout * (Z * Q) * option Z * bool :=
       match idx with
       | [] => (Lay, fl, ri, false)
@@ -347,6 +353,16 @@ Section Model.
     if match ri with None => fits_line | Some _ => false end
     then first_line_metrics fl t Lay ri collapse false
     else
+      (* Pango lets trailing spaces hang when it checks that the text fits, but they are included in the line width:
+         is the line of the text without its trailing spaces narrow enough? *)
+      let only_spaces_overflow :=
+        match ri with
+        | None =>
+            if ends_with is_sp t then
+              let '(sfl, _) := first (mk_layout (rstrip t) None) in Qle_bool (snd sfl) mw
+            else false
+        | Some _ => false
+        end in
       (* step 3 *)
       let fs_texts :=
         if fits_line then
@@ -362,7 +378,7 @@ Section Model.
           let bp_res : option (option Z) :=
             if text_eqb flt short then Some None
             else match nbp Lay (length flt + 1) (length short) with
-                 | Found k => Some (Some (Z.of_nat k - (Z.of_nat (length flt) + 1)))
+                 | Found k => Some (Some (Z.of_nat k + 1))
                  | NotFound => Some None
                  | OutOfBounds => None
                  end in
@@ -371,7 +387,7 @@ Section Model.
           | Some bp =>
               match lookahead collapse t flt slt bp Lay fl ri with
               | inl o => o
-              | inr (Lay, fl, ri) => steps45 st mw pwm is_line_start minimum t flt slt Lay fl ri
+              | inr (Lay, fl, ri) => steps45 st mw pwm is_line_start minimum t flt slt only_spaces_overflow Lay fl ri
               end
           end
       end.
@@ -430,6 +446,8 @@ Section Model.
     end.
 End Model.
 
-Definition ins_of (st : style) : bool := match st_ow st with OwNormal => true | _ => false end.
+(* Pango with G: the insert_hyphens attribute is on in every layout except the one of step 5, that breaks words
+   (set_text(text, break_words=True) + WRAP_CHAR), and stays so on that layout object *)
+Definition Gpango (fs : Q) (t : text) (W : option Q) (wc : bool) : nat * option nat * Q := G fs (negb wc) t W wc.
 Definition sfl_model (st : style) (t : text) (mw : option Q) (ils mini : bool) : outcome :=
-  split_first_line (G (st_fs st) (ins_of st)) Gattrs st t mw ils mini.
+  split_first_line (Gpango (st_fs st)) Gattrs st t mw ils mini.
